@@ -816,11 +816,11 @@ impl Session {
     async fn kill_peer(&mut self, addr: &String) {
         match self.peers.get_mut(addr) {
             Some(peer) => {
-                // Reset piece status
-                if let Some(piece_index) = peer.piece_index {
-                    if self.pieces_status[piece_index] != Status::Have {
-                        self.pieces_status[piece_index] = Status::Missing
-                    }
+                // Give back only the reservation held by this peer. Other unchoked peers can
+                // still be fetching the same piece (end game), so status is not simply reset.
+                // Choked peer holds nothing: its reservation was given back on Choke.
+                if !peer.choked {
+                    peer.release_piece(&mut self.pieces_status);
                 }
 
                 // Wait for task to finish
